@@ -29,6 +29,8 @@ type Prod struct {
 	// terminal "error").
 	IsErr bool
 	Tag   string // "p<i>"
+	Index int    // gocc's production number (position in the unfiltered list)
+	Alt   *gr.Alt_
 }
 
 const EOF = 0
@@ -83,9 +85,11 @@ func FromGrammar(g *gr.Grammar) (*CFG, error) {
 	}
 	nt := len(c.Terms)
 	c.Prods = append(c.Prods, Prod{Head: 0, Body: []int{nt + c.nIdx[g.Prods[0].Name]}, Tag: "p0"})
-	for _, p := range g.Prods {
-		for _, a := range p.Alts {
-			pr := Prod{Head: c.nIdx[p.Name], IsErr: a.Error, Tag: fmt.Sprintf("p%d", len(c.Prods))}
+	for pi := range g.Prods {
+		p := &g.Prods[pi]
+		for ai := range p.Alts {
+			a := &p.Alts[ai]
+			pr := Prod{Head: c.nIdx[p.Name], IsErr: a.Error, Tag: fmt.Sprintf("p%d", len(c.Prods)), Index: len(c.Prods), Alt: a}
 			if !a.Empty {
 				if a.Error {
 					pr.Body = append(pr.Body, c.tIdx["error"])
